@@ -295,6 +295,8 @@ def run(ctx):
         if cov:
             need = ACTIONS + (["NextGroup"] if kw.get("ngroups", 1) > 1 else [])
             need = [a for a in need if not (a in ("ReBlend", "ValueEval") and "value" not in kw.get("paths", ("grad", "value")))]
+            if "mix" in kw.get("paths", ("mix",)):
+                need += ["MixBlend", "MixDataBatch", "MixDataDone", "MixMCStart", "MixMCBatch", "MixMCDone"]
             ctx.tlc(r, "Likelihood: " + label, vacuity_actions=need)
         else:
             ctx.tlc(r, "Likelihood: " + label)
@@ -426,6 +428,18 @@ def replay_all(ctx, fac, emitted, rng, quick, variants):
         if not cand and impl_name == "cfit":
             raise tlc.MachineryError("no cfit scenario with non-uniform MC weights among the emitted scenarios")
         forced += [(impl_name, c) for c in cand[:1]]
+    # always: the mixed likelihood (MixLogLikehoodFCN), extended over two data sets and non-extended with a background sample
+    def has_bg(c):
+        return any(g["nb"] for g in c["core"]["groups"])
+    def negw(c):
+        return any(frac(w) < 0 for g in c["core"]["groups"] for w in g["dw"])
+    for impl_name, ngr, pred in (("mix_extended", 2, negw), ("mix_default", 1, has_bg)) + (() if quick else (("mix_default", 2, negw), ("mix_extended", 1, has_bg))):
+        kind = IMPL_KINDS[impl_name][0]
+        cand = sorted([c for c in emitted if c["core"]["kind"] == kind and len(c["core"]["groups"]) == ngr and pred(c)],
+                      key=lambda c: (-size(c), -len(c["core"]["constr"]), json.dumps(c["core"], sort_keys=True)))
+        if not cand:
+            raise tlc.MachineryError("no scenario for %s with %d data set(s)" % (impl_name, ngr))
+        forced += [(impl_name, c) for c in cand[:1]]
     ctx.part("replay", strata=len(strata), chosen=len(chosen), registered_custom_models=custom, custom_scenarios=len(forced))
     stats = {"max_rel_dev": 0.0, "clip_skipped": 0, "scenarios": 0, "evaluations": 0, "scaled": 0, "ext_scaled_changed": 0, "sum_of_parts": 0}
     rot = {}
@@ -477,6 +491,9 @@ def replay_core(ctx, fac, core, impl, rng, maxn, mult, with_eff, variants, stats
         batches = list(range(1, maxn + 2))
     else:
         batches = sorted(set([3, mult * 2 - 1, mult * 2, nmax - 1, nmax, nmax + 1]))
+    if impl.startswith("mix_"):
+        ntot = sum(len(g["dw"]) + g["nb"] for g in core["groups"]) * mult
+        batches = sorted(set(batches + [ntot - 1, ntot, ntot + 1]))
     stats["scenarios"] += 1
     sample_done = False
     fcns = {}
